@@ -1170,6 +1170,15 @@ class Analyzer:
                     out[q] = [e.value for e in f.elts]
                 elif isinstance(f, ast.Constant) and isinstance(f.value, str):
                     out[q] = f.value.replace(",", " ").split()
+            # class T(NamedTuple): a: int; b: str
+            for cq, ci in self.P.classes.items():
+                if ci.module != modname:
+                    continue
+                bases = [ast.unparse(b) for b in getattr(ci.node, "bases", [])]
+                if any(b.endswith("NamedTuple") for b in bases):
+                    fields = [st.target.id for st in ci.node.body if isinstance(st, ast.AnnAssign) and isinstance(st.target, ast.Name)]
+                    if fields:
+                        out[cq] = fields
             self._nt_cache[modname] = out
         return self._nt_cache[modname]
 
